@@ -106,6 +106,17 @@ CHECKS["C15"] = dict(
     technique="Lean 4 proof (order-insensitivity of sink classes + decide over the regenerated site table) + translator (AST scan, taint analysis) + multi-process hash-seed differential",
 )
 
+CHECKS["C20"] = dict(
+    category="proof",
+    text="Lean 4 theorems (Properties/C20.lean): every kind of ill-formed reference (unknown model, unknown metric/dimension, unknown graph-level metric, missing model prefix, non-whitelisted granularity, granularity on a non-time dimension) yields a non-empty error list in the model of validate_query, "
+         "an accepted dimension reference has exactly the shape model.dimension[__whitelisted granularity on a time dimension] (C20_dim_accepted); whenever validation passes for a single-model query the generator model is total — no KeyError/ValueError path is reachable (C20_accepted_query_compiles_partial); "
+         "the model behind a <model>_cte qualifier is recovered for EVERY model name, also names containing _cte (C20_cte_alias_recovered). Tie: validate_query vs validateRefs on generated ill-formed references; _model_from_table vs modelFromTable. "
+         "Search: accepted hostile-name models (SQL keywords, _cte/_raw substrings, mixed case, names of physical columns and of the generator's own aliases), each single-field query compiled AND executed on DuckDB; ill-formed references must raise QueryValidationError.",
+    design_ref="DESIGN.md §4 C20",
+    note="Partial: acceptance theorem for one model without segments/default time dimension; join-path rejection is C10's theorem. Two genuine defects fixed (reserved-word aliases, _cte in model names), one recorded (F35).",
+    technique="Lean 4 proof (rejection completeness, acceptance => generator totality, qualifier recovery) + correspondence + exhaustive single-field execution on hostile names",
+)
+
 CHECKS["C16"] = dict(
     category="proof",
     text="Lean 4 theorem C16_string_one_literal: for EVERY value and every continuation, the formatted string/date value lexes as exactly one string literal whose content is the value (round-trip), "
